@@ -6,6 +6,12 @@ import json, os, re, subprocess, sys, time
 V = "/verif"
 sel = sys.argv[1:]
 rows = []
+# the checks rewrite evidence/ and replays/ on every run: what they write while a seeded change is applied must not
+# stay (committed evidence comes from runs on the unchanged tree)
+import shutil, tempfile
+keep = tempfile.mkdtemp(prefix="seeded-keep-", dir="/dev/shm")
+shutil.copytree(f"{V}/evidence", f"{keep}/evidence")
+shutil.copytree(f"{V}/replays", f"{keep}/replays")
 assert subprocess.run(["git", "-C", "/repo", "status", "--porcelain", "--untracked-files=no"], capture_output=True, text=True).stdout.strip() == "", "/repo not clean"
 for d in sorted(os.listdir(f"{V}/seeded")):
     p = f"{V}/seeded/{d}"
@@ -27,6 +33,10 @@ for d in sorted(os.listdir(f"{V}/seeded")):
     nf = sum("no-failing-input-found" in l for l in viol)
     rows.append((d, chk, f"detected ({len(viol)} violation lines, {nf} without failing input)" if viol else "MISSED", time.time() - t0))
     print(rows[-1], flush=True)
+for sub in ("evidence", "replays"):
+    shutil.rmtree(f"{V}/{sub}")
+    shutil.copytree(f"{keep}/{sub}", f"{V}/{sub}")
+shutil.rmtree(keep)
 # a partial run (names given) updates the rows of the file it has run again
 prev = {}
 if sel and os.path.exists(f"{V}/seeded/REGRESSION.txt"):
